@@ -96,4 +96,56 @@ def regenerate(repo, th, svh=None):
            "Definition env_cram_compat : list (list N * option (list N)) := [" + '; '.join(ent(x) for x in pc) + "].\n")
     info['gen_Env.v'] = 'rewritten' if write_if_changed(os.path.join(th, 'gen_Env.v'), src) else 'unchanged'
     info['env_names'] = [x[0] for x in pa] + ['cram:' + x[0] for x in pc]
+    # --- humantime (durations of the configuration are written and read by it): the version /repo locks, its unit table
+    #     and its calendar constants, scraped from the crate source cargo builds from ---
+    lock = open(os.path.join(repo, 'Cargo.lock')).read()
+    m = re.search(r'name = "humantime"\nversion = "([^"]+)"', lock)
+    if not m:
+        raise RuntimeError('humantime is not in Cargo.lock')
+    ver = m.group(1)
+    import glob as _glob
+    home = os.environ.get('CARGO_HOME', os.path.expanduser('~/.cargo'))
+    cands = _glob.glob(os.path.join(home, 'registry', 'src', '*', 'humantime-%s' % ver, 'src', 'duration.rs'))
+    if not cands:
+        raise RuntimeError('humantime-%s source not found under %s' % (ver, home))
+    hs = open(cands[0]).read()
+    hs = hs[:hs.index('#[cfg(test)]')] if '#[cfg(test)]' in hs else hs
+    units = ['Nanosecond', 'Microsecond', 'Millisecond', 'Second', 'Minute', 'Hour', 'Day', 'Week', 'Month', 'Year']
+    fs = hs[hs.index('fn from_str'):]
+    fs = fs[:fs.index('\n    }\n')]
+    table = []
+    for arm in re.finditer(r'((?:"[^"]*"\s*\|?\s*)+)=>\s*Ok\(Self::(\w+)\)', fs):
+        for nm in re.findall(r'"([^"]*)"', arm.group(1)):
+            table.append((nm, units.index(arm.group(2))))
+    if len(table) < 20:
+        raise RuntimeError('cannot scrape humantime unit names: %r' % table)
+    pu = hs[hs.index('fn parse_unit'):]
+    pu = pu[:pu.index('add_current(sec, nsec, out)?;')]
+    mults = {}
+    for mm in re.finditer(r'Unit::(\w+)\s*=>\s*\((.*?)\),', pu):
+        nums = re.findall(r'mul\(([0-9_ *]+)\)', mm.group(2))
+        val = 1
+        if nums:
+            for f in nums[0].replace('_', '').split('*'):
+                val *= int(f.strip())
+        mults[mm.group(1)] = (val, mm.group(2).strip().startswith('0'))
+    if sorted(mults) != sorted(units):
+        raise RuntimeError('cannot scrape humantime unit multipliers: %r' % mults)
+    fm = hs[hs.index('impl fmt::Display for FormattedDuration'):]
+    def const(name):
+        mm = re.search(r'let %s = \w+ / ([0-9_]+);' % name, fm)
+        if not mm:
+            raise RuntimeError('cannot scrape humantime format constant ' + name)
+        return int(mm.group(1).replace('_', ''))
+    src = (HEADER + "From Coq Require Import List NArith Bool.\nImport ListNotations.\nLocal Open Scope N_scope.\n\n"
+           "(* humantime %s, src/duration.rs.  Units are numbered 0 ns, 1 us, 2 ms, 3 s, 4 min, 5 h, 6 day, 7 week, 8 month, 9 year *)\n" % ver
+           + "Definition ht_version : list N := " + lst(ver.encode()) + ".\n"
+           + "(* Unit::from_str: every accepted unit name *)\nDefinition ht_unit_names : list (list N * N) := ["
+           + '; '.join('(%s, %d)' % (lst(nm.encode('utf-8') if all(ord(c) < 128 for c in nm) else [ord(c) for c in nm]), u) for nm, u in table) + "].\n"
+           + "(* parse_unit: (unit, multiplier, counts nanoseconds?) *)\nDefinition ht_unit_amounts : list (N * N * bool) := ["
+           + '; '.join('(%d, %d, %s)' % (units.index(u), mults[u][0], 'true' if mults[u][1] else 'false') for u in units) + "].\n"
+           + "(* Display: seconds per year / month / day / hour *)\nDefinition ht_format_divisors : list N := ["
+           + '; '.join(str(const(n)) for n in ['years', 'months', 'days', 'hours']) + "].\n")
+    info['gen_Humantime.v'] = 'rewritten' if write_if_changed(os.path.join(th, 'gen_Humantime.v'), src) else 'unchanged'
+    info['humantime'] = ver
     return info
